@@ -36,8 +36,8 @@ func (r *hRef) read() (string, bool) { // value, notset
 }
 
 var hSpell = [][]string{{"Foo", "foo", "FOO", "fOo"}, {"X-Bar", "x-bar", "X-BAR", "x-bAR"}}
-var hPrefix = []string{"req.http.", "bereq.http.", "beresp.http.", "obj.http.", "resp.http."}
-var hScopes = []context.Scope{context.RecvScope, context.MissScope, context.FetchScope, context.ErrorScope, context.DeliverScope}
+var hPrefix = []string{"req.http.", "bereq.http.", "beresp.http.", "obj.http.", "resp.http.", "resp.http."}
+var hScopes = []context.Scope{context.RecvScope, context.MissScope, context.FetchScope, context.ErrorScope, context.DeliverScope, context.LogScope}
 
 func hSetup(obj int) (Variable, context.Scope) {
 	ctx := context.New()
@@ -62,6 +62,8 @@ func hSetup(obj int) (Variable, context.Scope) {
 		return NewFetchScopeVariables(ctx), ctx.Scope
 	case 3:
 		return NewErrorScopeVariables(ctx), ctx.Scope
+	case 5: // resp is readable and writable in vcl_log as well
+		return NewLogScopeVariables(ctx), ctx.Scope
 	default:
 		return NewDeliverScopeVariables(ctx), ctx.Scope
 	}
